@@ -292,7 +292,7 @@ pub fn junk(rng: &mut Rng, kind: &str) -> Vec<u8> {
         "hex29" => hexn(rng, 29),
         "hex41" => hexn(rng, 41),
         "hex-odd" => { let n = *rng.pick(&[1usize, 2, 7, 12, 16, 25, 30, 39, 42, 56, 64]); hexn(rng, n) }
-        "high-bytes" => (0..rng.range(1, 40)).map(|_| rng.range(0x80, 0xFF) as u8).collect(),
+        "high-bytes" => { let n = if rng.chance(0.3) { rng.range(40, 200) } else { rng.range(1, 40) }; let mut v: Vec<u8> = (0..n).map(|_| if rng.chance(0.15) { *rng.pick(b"xyz -_") } else { rng.range(0x80, 0xFF) as u8 }).collect(); if rng.chance(0.3) { v.insert(0, b'x'); } v }
         "nul" => { let mut x = vec![0u8; rng.range(1, 6) as usize]; x.extend(b"zz"); x.push(0); x }
         "lone-cr" => b"\r".to_vec(),
         "overlong" => { let n = 65537 + rng.below(5000) as usize; let c = *rng.pick(&[b'x', b' ', b'G', 0xFEu8]); vec![c; n] }
@@ -392,7 +392,9 @@ pub fn ops_of(rng: &mut Rng, lines: Vec<(i64, Vec<u8>, String)>, ch: Chunking) -
                 while off < b.len() {
                     let rest = b.len() - off;
                     let n = if rng.chance(0.4) { rest } else { (rng.below(rest.min(24) as u64) + 1) as usize };
-                    ops.push(Op::Data { dt_us: if first { dt } else { 0 }, bytes: Bytes(b[off..off + n].to_vec()), tag: if first { tag.clone() } else { String::new() } });
+                    // the rest of a line may arrive late (a slow or stalled peer)
+                    let late = if !first && rng.chance(0.08) { rng.range(200_000, 3_000_000) } else { 0 };
+                    ops.push(Op::Data { dt_us: if first { dt } else { late }, bytes: Bytes(b[off..off + n].to_vec()), tag: if first { tag.clone() } else if late > 0 { "late-tail".into() } else { String::new() } });
                     first = false;
                     off += n;
                 }
